@@ -25,7 +25,8 @@ CHECKS = {
                 "re-encoding); the RFC error strings are compared exactly in both directions (wire string -> Go error type -> wire string; a string differing only in case is not that error). Schemas include integer bounds beyond +-2^53 and string enums as map keys and values; a quarter of the round trips come right after a structurally corrupted encoding of the same value was decoded (accepted or rejected). Non-trivial = value with >=1 optional member present and >=1 nested set/map, or a schema "
                 "with >=1 base-type constraint; distinct = hash of the structural signature (type, members present, "
                 "shapes of nested values / column type signature)."
-                " Maps nested in rows, conditions, mutations and table updates also take sets of uuids (none, two, three) as values.",
+                " Maps nested in rows, conditions, mutations and table updates also take sets of uuids (none, two, three) as values."
+                " Real-typed base types spell out -MaxFloat64 and/or MaxFloat64 as their bounds one time in four.",
         "assumptions": COMMON_ASSUMPTIONS + [
             "untyped positions use the decoded canonical form: JSON numbers are float64 and a one-element set is its atom "
             "(RFC 7047 notation is ambiguous there by design)",
@@ -111,7 +112,8 @@ CHECKS = {
                 "duplicate index tuples, and accept/reject + 'constraint violation' must agree with refdb's final-state scan. "
                 "Schema indexes may include optional columns and (in a reference-heavy third of the cases) reference columns, whose values also change by weak-reference pruning and garbage collection: the commit-time check has to see those rows too. Non-trivial = transaction with a transient duplicate that is accepted or a final duplicate that is rejected; "
                 "distinct = hash of (schema kinds, operation sequence)."
-                " The index composites include: a row is renamed, deleted through a condition on its new value, and its old value is reused by an insert in the same transaction.",
+                " The index composites include: a row is renamed, deleted through a condition on its new value, and its old value is reused by an insert in the same transaction."
+                " The index-heavy profile also draws immutable columns (an index may list them next to mutable ones).",
         "assumptions": COMMON_ASSUMPTIONS + [
             "index columns are scalar (min=max=1) columns: the cache uses the value as a Go map key",
             "known finding index-overwrite excluded by construction: transactions in which >=3 rows hold one index tuple at the same "
@@ -188,7 +190,8 @@ CHECKS = {
                 "encodings of each of the 16 wire types and the hostile constants) and FuzzC19Txn (a JSON array of operations executed on a populated "
                 "database with every column kind, strong/weak/map references and an index; seeded with generated valid transactions and the "
                 "degenerate operations; same oracles as TestC19Txn). Corruptions include growing an array to 9-130 elements (many conditions, mutations, operations, set elements). TestC19Wire first sends 0-2 requests the server refuses (duplicate monitor id, unknown database, table or column, unknown method, transact without database name) from either connection and ends with a valid transaction that must be served. A memory guard (5 GB resident set) ends a test process that a request makes allocate without bound; the case in flight is the reproduction. Non-trivial = every executed case (each is a distinct corrupted input); distinct = "
-                "hash of (target, input text).",
+                "hash of (target, input text)."
+                " Every text that decodes as a database schema is also written to a file and loaded with SchemaFromFile.",
         "assumptions": COMMON_ASSUMPTIONS + [
             "a wait without timeout (or with a positive one) is not sent: RFC 7047 5.2.6 lets it block, and the single-threaded "
             "server cannot be woken by another transaction; the timeout member is protected from corruption",
@@ -225,7 +228,8 @@ CHECKS = {
                 "select what a scan (refdb) selects, and must leave the indexes intact for the comparisons that follow; "
                 "values no row holds any more lead nowhere. Between batches one third of the cases issue a checked write the cache has to refuse (Create or Update that would give a second row the values of a schema index of a cached row, the other columns fresh): it must fail and leave Rows(), every index and every lookup as they were. The optional indexed column takes every atomic type. Non-trivial = history with a batch in which an indexed value changes owner; "
                 "distinct = hash of (index configuration, per-batch path/size/hand-over)."
-                " One case in three has a second table with the same columns and one to three client indexes of its own (the index configuration of one table is nobody else's).",
+                " One case in three has a second table with the same columns and one to three client indexes of its own (the index configuration of one table is nobody else's)."
+                " At a drawn point of a history (one batch in six) the cache is purged (TableCache.Purge) with a database model of the same schema whose client indexes are others (none to three, drawn afresh): from there on those are the indexes the lookups must agree with, starting from an empty cache.",
         "assumptions": COMMON_ASSUMPTIONS + [
             "single-column indexes on set/map columns are not generated (the cache uses the value as a Go map key)",
             "Index() addresses indexes by column names only: map-key client indexes are checked through the lookup half",
@@ -248,7 +252,8 @@ CHECKS = {
                 "or Mutate(model, a drawn valid mutation of the set, map or a numeric column) has exactly the effect the reference interpreter computes for one "
                 "operation per listed row (database compared in full, affected-row counts summed; where that effect is a constraint violation the request "
                 "must be rejected and change nothing). Non-trivial = >=2 conditions, >=1 index "
-                "configured, answer non-empty and a strict subset of the table; distinct = hash of (functions x column kinds, configurations).",
+                "configured, answer non-empty and a strict subset of the table; distinct = hash of (functions x column kinds, configurations)."
+                " One cache in three is also asked through the mapper: Mapper.NewEqualityCondition over one to three listed fields of a cached object (one of them set to its type's default half of the time) must give one == per listed column, and the rows these conditions select must be the rows equal to the object on these columns.",
         "assumptions": COMMON_ASSUMPTIONS + [
             "includes/excludes on optional columns are documented as unsupported: an error is accepted there, a wrong answer is not",
             "the column s0 is unique by construction so that every schema index containing it is satisfiable",
@@ -350,7 +355,8 @@ CHECKS = {
                 "all handlers saw identical sequences; the last handler may scribble over the models it receives without effect on the cache. "
                 "TestC14Partial: a notification of 1-8 new rows plus one row that cannot be applied (insert of a cached row, modification or deletion of an unknown row; update and update2 encodings): however many of the other rows Go map order lets through, replaying the delivered events must reproduce the cache, also after the rows that made it are modified once more. Non-trivial = a row with >=3 changes and the dispatcher lagging >=2 events at some point; distinct = hash of (schema kinds, "
                 "schedule word, handlers)."
-                " TestC14HeldHandler: the first callback is held while 8-60 further updates queue behind it, the connection is cut, and the callback returns only after 3-5 times the client's reconnect timeout (60-150 ms); the handler must be told the queued updates once and in order (first old value 0, each old value the previous new value), followed by five updates made after the reconnection (a row inserted through another connection tells when the client is monitoring again).",
+                " TestC14HeldHandler: the first callback is held while 8-60 further updates queue behind it, the connection is cut, and the callback returns only after 3-5 times the client's reconnect timeout (60-150 ms); the handler must be told the queued updates once and in order (first old value 0, each old value the previous new value), followed by five updates made after the reconnection (a row inserted through another connection tells when the client is monitoring again)."
+                " TestC14Partial has a third way of delivering its rows: accumulated into one ModelUpdates (AddRowUpdate2 per row) and applied with one ApplyCacheUpdate call.",
         "assumptions": COMMON_ASSUMPTIONS + [
             "generated histories keep fewer events outstanding than the 65536-entry buffer; TestC14Overflow overflows it once on purpose and checks that drops stop when it has free slots again",
             "handlers of one cache share the event's model objects; only isolation from the cache is required (C13)",
@@ -378,7 +384,8 @@ CHECKS = {
                 "still be connected. TestC01Long: one history long enough to exceed the 65536-entry event buffer of the cache while a registered handler is slow: the cache must keep following the database (dropping events is allowed, dropping updates is not). Between transactions a client that already monitors something sometimes makes a Monitor call that fails (a method the client does not know, a request the server refuses): its established monitors must go on being served." + BIG_NOTE + " evaluations = cases (each with up to ~100 cache/database comparisons). Non-trivial = a monitor established "
                 "strictly inside the history with committed transactions after it; distinct = hash of (schema kinds, monitor "
                 "methods/positions/schedules, history length)."
-                " One case in three draws its schema from the reference-heavy profile (one in five of those is the chain-friendly schema: a root table holding rows of a non-root table that refer to each other, watched by a root table through weak references), and mutate operations carry up to four mutations, so that rows are pruned in several rounds of one commit and a mutation without effect sits between two that have one.",
+                " One case in three draws its schema from the reference-heavy profile (one in five of those is the chain-friendly schema: a root table holding rows of a non-root table that refer to each other, watched by a root table through weak references), and mutate operations carry up to four mutations, so that rows are pruned in several rounds of one commit and a mutation without effect sits between two that have one."
+                " One monitored table in four is set up through WithConditionalTable with the two conditions column == <zero value> and column != <zero value> on a drawn integer, string or boolean column (every row satisfies exactly one of them: the expected contents are the whole table whether a server evaluates the clause as RFC 7047 says or, like libovsdb's, not at all).",
         "assumptions": COMMON_ASSUMPTIONS + [
             "the peer is libovsdb's own server (no ovsdb-server offline): it never answers monitor_cond_since with found=true and never sends update3",
             "the monitors of one client cover disjoint table sets; monitor conditions (where) are empty",
@@ -404,7 +411,8 @@ CHECKS = {
                 "(GC, pruning, merges). A third of TestC07L1 uses the reference-heavy profile (multi-round collections, rows pruned more than once). TestC07Order (one notification per commit, in commit order, under concurrency): 2-4 connections each commit 1-4 "
                 "increments of one counter at the same time while 2-3 monitoring peers (any method) acknowledge their notifications with drawn delays "
                 "(0-8 ms): every monitor must be told exactly the values 1..N in this order. Non-trivial = transaction with >=2 net row changes (wire) / GC, pruning or multi-operation "
-                "transactions (L1); distinct = hash of (schema kinds, peer requests, history length).",
+                "transactions (L1); distinct = hash of (schema kinds, peer requests, history length)."
+                " A third of the monitor_cond / monitor_cond_since requests of raw peers carry a where clause (column == zero, column != zero, on a column that need not be among the selected ones): libovsdb's server serves every row whatever the clause says, and the selected columns stay the selected columns.",
         "assumptions": COMMON_ASSUMPTIONS + [
             "an RFC 'update' new row is taken as the complete monitored row with absent = default (the server omits default-valued "
             "columns; the effect on libovsdb's own client is the known finding v1-default-reset under C01); extra columns in old are tolerated",
@@ -448,7 +456,8 @@ CHECKS = {
                 "the application keeps calling Transact with deadlines shorter than the inactivity timeout - a second connection must appear within 15 s; "
                 "both end with the convergence oracle. TestC16Large: 66000 + 1200 monitored rows (more than the 65536 entries of the event buffer), two cuts with deletions and insertions meanwhile. Scripts contain transactions the client refuses itself (unknown column: nothing is sent). A scenario that does not finish because goroutines have been waiting for minutes on mutexes inside libovsdb/client is reported as reconnect.wedged. After every convergence the client indexes on T0.marker and T1.name are compared with a scan of the cache. Non-trivial = cut after the 6th message (monitor set-up begun) "
                 "resp. a parked window with foreign commits inside; distinct = (scenario, direction, k, mode) resp. (monitors, k, foreign kinds)."
-                " Scenarios contain the step 'cancel-failed' (MonitorCancel of the first established monitor; libovsdb's server does not implement it and a cut may hit it: unless the call returns nil the monitor is still one the client has to re-establish), also in the fixed scenario that is cut at every message boundary; inactivity scenarios configure the client with WithInactivityCheck alone or followed by WithReconnect with the same timeout and back-off.",
+                " Scenarios contain the step 'cancel-failed' (MonitorCancel of the first established monitor; libovsdb's server does not implement it and a cut may hit it: unless the call returns nil the monitor is still one the client has to re-establish), also in the fixed scenario that is cut at every message boundary; inactivity scenarios configure the client with WithInactivityCheck alone or followed by WithReconnect with the same timeout and back-off."
+                " TestC16Leader: half of the clients whose first endpoint is the leader start with that endpoint alone and are told the others through UpdateEndpoints (endpoint in use first) once attached; they must follow the leadership like the others.",
         "assumptions": COMMON_ASSUMPTIONS + [
             "enumerated scenarios run without the inactivity probe so that the fault-free message sequence is the same in every run up to the cut",
             "the keep-the-cache path of monitor_cond_since (found=true) is unreachable with libovsdb's server, which always answers found=false",
@@ -485,7 +494,8 @@ CHECKS = {
                 "involving libovsdb code. Programs also detach a child from a parent (a child no parent holds is garbage collected), alone or together with a claim of a contested key - when the claim fails nothing of the detachment may remain; some children belong to both parents from the start. In two thirds of the runs a bystander monitors a few columns of every table only. Half of the bystanders close their connection right after registering (the server keeps their monitors). TestC17Aged: the same programs on a server that has committed 66000 row changes before. TestC17Tokens: 2-5 clients race to take 1-4 tokens with transactions that only delete (optionally after a select or a wait, so they look read-only at first) while monitoring peers acknowledge slowly: each token is taken by exactly one transaction, nobody gets an RPC error, every monitor is told of each deletion once. TestC17MonitorWindow pins, with the server-side verif hook, a monitor set-up between 'monitors "
                 "notified' and 'committed'. Non-trivial = run in which transactions of different clients overlapped in time at least "
                 "twice (measured by invocation/response timestamps); distinct = the observed order pi."
-                " Programs also contain 'retire+claim' (delete a scratch row and insert a contested key: when the claim fails the row is still there for everybody) and 'incr-scratch' (increment of a scratch row; count 0 once it is retired); TestC17Aged builds the database model of server and clients with client indexes over the columns of the schema indexes (Item.key, Counter.name) and one more (Item.owner).",
+                " Programs also contain 'retire+claim' (delete a scratch row and insert a contested key: when the claim fails the row is still there for everybody) and 'incr-scratch' (increment of a scratch row; count 0 once it is retired); TestC17Aged builds the database model of server and clients with client indexes over the columns of the schema indexes (Item.key, Counter.name) and one more (Item.owner)."
+                " Program 'own+list': an item changes hands (update) and the same transaction selects the items of the others; the rows returned are compared with the serial execution in the observed order (columns holding their default are left out by select and read as the default).",
         "assumptions": COMMON_ASSUMPTIONS + [
             "schedules are whatever the Go scheduler produces on this machine plus the one pinned window; a rarer interleaving can be missed",
             "race reports whose two racing accesses are both inside third-party modules (the JSON-RPC library writes responses of "
@@ -553,7 +563,8 @@ CHECKS = {
                 "a map key replaced by another holding the same or the zero value, one value zeroed, one more zero-valued key, a slice element zeroed / "
                 "dropped / a zero element appended, a pointee zeroed or the pointer cleared - on which Equal must agree with DeepEqual in both directions). Non-trivial = schema with >=1 enum and >=1 "
                 "collection/optional column (in-process) / every compiled package; distinct = hash of (column type signature, options)."
-                " One case in four also writes the files with Generate into a directory that holds the output of an earlier run with other options (extended and/or enum types flipped), twice: each file must be byte-identical to what a fresh run renders.",
+                " One case in four also writes the files with Generate into a directory that holds the output of an earlier run with other options (extended and/or enum types flipped), twice: each file must be byte-identical to what a fresh run renders."
+                " The compiled laws check that the copy made by CloneInto, like the one made by Clone, shares no pointer, map or slice with its source and leaves the source as it was.",
         "assumptions": COMMON_ASSUMPTIONS + [
             "two enum strings that collapse to one Go identifier are not generated together",
             "packages generated without -extended clone through JSON: tables with real/boolean map keys are skipped for the clone laws there (known finding clone-nonjson-map-key)",
